@@ -259,6 +259,10 @@ def gen_cases(ctx):
                     rows = [[0, 3.1 + 0.37 * i] for i in range(rng.randint(2, 3))]
                     for _ in range(rng.randint(0, 4)):
                         rows.append([rng.randint(0, max(0, last - 1)), round(rng.uniform(2.6, 9.4), 3)])
+                    if (not warm) and N >= 5 and k % 4 == 2:
+                        # every fourth cold run: nothing is released before step 3 (the model runs empty for three steps
+                        # under time-varying forcing, then particles arrive, between two forcing frames)
+                        rows = [[max(3, r[0]), r[1]] for r in rows]
                     rows.sort(key=lambda r: r[0])
                     npart = len(rows)
                     kills = {}
@@ -388,7 +392,7 @@ def temp_field(nframes):
 
 
 def write_inputs(d, rows, nframes):
-    times = [k * DT for k in range(nframes)]
+    times = [k * 2 * DT for k in range(nframes)]  # a forcing frame every SECOND step: the scalar field holds between frames
     rf.write_roms(d / "f.nc", imax=IMAX, jmax=JMAX, N=NLEV, times=times, u=U, extra={"temp": temp_field(nframes)}, h=100.0)
     rf.write_release(d / "r.rls", [[int(s) * DT, float(x), 4.2, 5.0] for s, x in rows])
 
@@ -623,7 +627,7 @@ def eval_case(desc, ctx):
                 problems.append(f"record of step {s}: pid {q} X={x}, position valid at that time is {want[q]}")
             frac = x - np.floor(x)
             if abs(frac - 0.5) > 1e-6:
-                tw = 100.0 * (s0 + s) + float(np.round(x))
+                tw = 100.0 * ((s0 + s) // 2) + float(np.round(x))  # the latest frame at or before the step
                 if t != tw:
                     problems.append(f"record of step {s}: pid {q} at X={x} has temp={t}, the field there and then is {tw}")
     # kills take effect from the next record on
